@@ -246,14 +246,17 @@ func (w *World) nameOf(a common.Address) string {
 	return "?" + a.Hex()
 }
 
+// toI64 maps an amount into the range the trace universe uses (TLC integers are 32 bit); anything beyond it
+// can only be the product of a defect and is clamped so that it still differs from every specified value
 func toI64(b *big.Int) int64 {
-	if b.IsInt64() {
+	const lim = 1 << 30
+	if b.IsInt64() && b.Int64() > -lim && b.Int64() < lim {
 		return b.Int64()
 	}
 	if b.Sign() < 0 {
-		return -(1 << 62)
+		return -lim
 	}
-	return 1 << 62
+	return lim
 }
 
 // observe reads everything the specification's observation contains from the real state
